@@ -4,7 +4,7 @@
    structurally recursive on the hop budget over ARBITRARY routing tables, connection sets, name
    tables and listener sets; tied to the code by `./check C10`. *)
 From Coq Require Import String Arith.
-From Receptor Require Import Model.Forward Proofs.Forward.
+From Receptor Require Import Model.Forward Model.TraceLoop Proofs.Forward Proofs.TraceLoop.
 Open Scope N_scope.
 
 (* whatever the tables say (loops, phantom routes, anything): a datagram handled with budget h
@@ -71,6 +71,39 @@ Theorem C10_traceroute_lists_path : forall (w0 : world) (src dst eph : bytes),
   traceroute w0 src dst eph = map (fun a => PErr a P_EXPIRED) (removelast ns) ++ [PReply dst].
 Proof. exact traceroute_lists_path. Qed.
 Print Assumptions C10_traceroute_lists_path.
+
+(* A traceroute ends: in EVERY world — every set of routing tables, loops included, every hop limit
+   — it makes at most one probe per budget 0..maxhops, and every result but the last is a
+   "message expired" *)
+Theorem C10_traceroute_ends : forall (w : world) (src target eph : bytes),
+  (length (traceroute w src target eph) <= S (w_maxhops w))%nat /\
+  forallb is_expired (removelast (traceroute w src target eph)) = true.
+Proof. exact traceroute_bounded. Qed.
+Print Assumptions C10_traceroute_ends.
+
+(* The same loop with its counter held in a byte (`hops <= max; hops++` on a byte) is the same
+   function for every hop limit below 255 ... *)
+Theorem C10_byte_counter_same_below_255 : forall (pingf : nat -> ping_res) (max : N),
+  (max < 255)%N ->
+  trace_byte pingf max 0 (S (S (N.to_nat max))) = (trace_gen pingf 0 (S (N.to_nat max)), true).
+Proof. exact trace_byte_same_below_255. Qed.
+Print Assumptions C10_byte_counter_same_below_255.
+
+(* ... and with hop limit 255, when every probe expires (a forwarding loop), the real loop makes
+   its 256 probes and ends, while the byte counter wraps to 0 and never ends, whatever the fuel *)
+Theorem C10_byte_counter_traceroute_refuted : forall pingf : nat -> ping_res,
+  (forall i, is_expired (pingf i) = true) ->
+  (length (trace_gen pingf 0 256) = 256)%nat /\
+  forall fuel, snd (trace_byte pingf 255 0 fuel) = false.
+Proof. exact trace_byte_refuted. Qed.
+Print Assumptions C10_byte_counter_traceroute_refuted.
+
+Example C10_nonvacuous_trace_loop :
+  (forall i, is_expired (always_expired i) = true) /\
+  length (trace_gen always_expired 0 4) = 4%nat /\
+  snd (trace_byte always_expired 3 0 6) = true /\
+  snd (trace_byte always_expired 255 0 2000) = false.
+Proof. exact trace_loop_example. Qed.
 
 (* non-vacuity: a three-node chain a - b - c with converged tables; a sends to c:svc *)
 Example C10_nonvacuous :
